@@ -197,6 +197,23 @@ CLAIMED = {
              "exhaustive simulation.",
         note=TRUST + " Known finding K28 (NetworkXUnfeasible on some multi-output circuits).",
         ref="§4 C17"),
+    "C19": dict(
+        technique="Lean 4 theorems (soundness of a flow-sensitive ownership/alias analysis w.r.t. a cell-and-version heap "
+                  "semantics with exceptions at every point; the analysis accepts all 69 public function skeletons, by "
+                  "kernel evaluation) about skeletons regenerated from the Python function bodies on every run by "
+                  "tools/extract_own.py + dynamic snapshot/id()-sharing/edit-script search on the real objects",
+        text="Proof: `summary_sound` / `wellOwned_sound` (for every skeleton, every callee-summary table, every entry heap and "
+             "every execution — normal, early return or exception at any statement — a function the analysis accepts leaves "
+             "the version of every cell reachable from its circuit parameters unchanged and returns no cell shared with "
+             "them), `all_public_wellOwned` (the analysis accepts every public function of tx, props, sat, io writers, "
+             "utils and the read-only Circuit methods as transliterated from the current sources, each against the summaries "
+             "of the functions it calls, `summaries_prefix`), `skeleton_count`. Partial in one respect: the translator's "
+             "statement classification tables (which methods mutate, which expressions copy) are trusted; they are "
+             "validated on every run by deep snapshots, id()-level sharing tests and random edit scripts on the real objects.",
+        note=TRUST + " Additional trusted base for C19: tools/extract_own.py's classification tables (MUTATING method names, "
+             "FRESH constructors); calls are interpreted by their summaries (compositional), so mutual recursion is not modelled "
+             "(the library has none among the listed functions).",
+        ref="§4 C19"),
 }
 
 NOT_YET = "check not built yet in this round (see DESIGN.md §4 for the plan); will be claimed when its Lean model and harness exist"
